@@ -1,11 +1,16 @@
 //! Per-property scenarios and oracles.
 
+pub mod c01;
+pub mod c02;
 pub mod common;
 pub mod smoke;
+pub mod txw;
 
 pub fn run(what: &str, tier: &str, _rest: &[String]) -> i32 {
     match what {
         "smoke" => smoke::run(),
+        "C01" => c01::run(tier),
+        "C02" => c02::run(tier),
         _ => {
             eprintln!("unknown check {} ({})", what, tier);
             64
